@@ -107,6 +107,7 @@ type AssertRec struct {
 	Status string            `json:"status"` // "discharged","folded","violated","unknown"
 	Site   string            `json:"site,omitempty"`
 	Model  map[string]string `json:"model,omitempty"`
+	Ms     int               `json:"ms,omitempty"`
 }
 
 type PathResult struct {
@@ -124,6 +125,7 @@ type PathResult struct {
 	Notes       []string          `json:"notes,omitempty"`
 	Choices     map[string]int    `json:"choices,omitempty"`
 	Merges      int               `json:"merges,omitempty"`
+	IfConversions int             `json:"if_conversions,omitempty"`
 	MergeAborts int               `json:"merge_aborts,omitempty"`
 	Outputs     map[string]string `json:"outputs,omitempty"`
 }
